@@ -100,6 +100,10 @@ func scratchFile(ext string) string {
 }
 
 func cleanupScratch() {
+	if e2eGenPath != "" {
+		os.Remove(e2eGenPath)
+		e2eGenPath = ""
+	}
 	if tmpDir != "" {
 		os.RemoveAll(tmpDir)
 		tmpDir = ""
